@@ -1,0 +1,12 @@
+//go:build verif
+
+package x509
+
+// Verification hook for property C08 (add-only, compiled only with -tags verif).
+
+// VerifHookFindVerifiedParents exposes (*CertPool).findVerifiedParents: the
+// indices (into s.Certificates()) of the pool members returned as verified
+// parents of cert, the rejected candidate (if any) and its error.
+func VerifHookFindVerifiedParents(s *CertPool, cert *Certificate) (parents []int, errCert *Certificate, err error) {
+	return s.findVerifiedParents(cert)
+}
